@@ -244,10 +244,18 @@ func (p *parser) doImport() error {
 	tokensBefore := p.tokens[:p.cursor-1]
 	tokensAfter := p.tokens[p.cursor+1:]
 	var importedTokens []Token
+	importedBy := p.tokens[p.cursor].imp
 
 	// first check snippets. That is a simple, non-recursive replacement
 	if p.definedSnippets != nil && p.definedSnippets[importPattern] != nil {
-		importedTokens = p.definedSnippets[importPattern]
+		info, err := p.newImport("snippet "+importPattern, importedBy)
+		if err != nil {
+			return err
+		}
+		for _, tkn := range p.definedSnippets[importPattern] {
+			tkn.imp = info
+			importedTokens = append(importedTokens, tkn)
+		}
 	} else {
 		// make path relative to the file of the _token_ being processed rather
 		// than current working directory (issue #867) and then use glob to get
@@ -289,6 +297,15 @@ func (p *parser) doImport() error {
 			if err != nil {
 				return err
 			}
+			if len(newTokens) > 0 {
+				info, err := p.newImport(newTokens[0].File, importedBy)
+				if err != nil {
+					return err
+				}
+				for i := range newTokens {
+					newTokens[i].imp = info
+				}
+			}
 			importedTokens = append(importedTokens, newTokens...)
 		}
 	}
@@ -299,6 +316,19 @@ func (p *parser) doImport() error {
 	p.cursor--
 
 	return nil
+}
+
+// newImport records that the file or snippet called name is being imported
+// by a token that itself came from the import importedBy (nil if it was
+// written in the main input). It is an error if name is already being
+// imported further up that chain, since expanding it would never end.
+func (p *parser) newImport(name string, importedBy *importInfo) (*importInfo, error) {
+	for i := importedBy; i != nil; i = i.parent {
+		if i.name == name {
+			return nil, p.Errf("Import cycle: %s imports itself", name)
+		}
+	}
+	return &importInfo{name: name, parent: importedBy}, nil
 }
 
 // doSingleImport lexes the individual file at importFile and returns
